@@ -214,3 +214,41 @@ pub fn num_decompressor_script(
     }
   })
 }
+
+/// The `f64`-driven helpers that define field widths or training decisions and
+/// that an integer model has to reproduce exactly:
+/// `kinfo lower upper gcd` (`Prefix::k_info`: `k lower_k upper_k`),
+/// `gcdbits range` (`gcd_bits_required`), `countbits n use_min_count`
+/// (`Flags::bits_to_encode_count`), and `jumpstart count n`, `maxn level n`,
+/// `runlen count n` (see `compressor::verif_train_sizing`).
+pub fn float_fns_script(op: &str, bits: usize, args: &[u128]) -> String {
+  match op {
+    "kinfo" => with_unsigned!(bits, U, {
+      let ps = mk_prefixes::<U>(
+        &[(1, args[0], args[1], Vec::new(), None, args[2])],
+        |x| x as U,
+        |x| x as U,
+      );
+      let info = ps[0].k_info();
+      format!("{} {:x} {:x}", info.k, info.only_k_bits_lower, info.only_k_bits_upper)
+    }),
+    "gcdbits" => with_unsigned!(bits, U, {
+      format!("{}", crate::gcd_utils::gcd_bits_required::<U>(args[0] as U))
+    }),
+    "countbits" => {
+      let flags = crate::Flags {
+        use_5_bit_code_len: true,
+        delta_encoding_order: 0,
+        use_min_count_encoding: args[1] != 0,
+        use_gcds: true,
+        phantom: std::marker::PhantomData,
+      };
+      format!("{}", flags.bits_to_encode_count(args[0] as usize))
+    }
+    "jumpstart" | "maxn" | "runlen" => {
+      let (x, y) = crate::compressor::verif_train_sizing(op, args[0] as usize, args[1] as usize);
+      format!("{} {}", x, y)
+    }
+    _ => "bad-op".to_string(),
+  }
+}
